@@ -568,9 +568,17 @@ impl CommandTask {
         );
         let child_fut = async { child.wait().await.map_err(MonorailError::from) };
 
+        // Both readers run to their own end, so that when the task is cancelled
+        // neither is dropped in the middle of handing its last lines to the
+        // compressor and the log stream.
+        let readers_fut = async {
+            let (stdout_result, stderr_result) = tokio::join!(stdout_fut, stderr_fut);
+            stdout_result.and(stderr_result)
+        };
+
         // todo; cancellation future
-        let (_stdout_result, _stderr_result, child_result) =
-            tokio::try_join!(stdout_fut, stderr_fut, child_fut).map_err(|e| {
+        let (_readers_result, child_result) =
+            tokio::try_join!(readers_fut, child_fut).map_err(|e| {
                 CommandTaskCancelInfo {
                     id: self.id,
                     elapsed: self.start_time.elapsed(),
